@@ -30,18 +30,7 @@ func TestMain(m *testing.M) {
 	ev.Main(m, "C06")
 }
 
-var dests = []reflect.Type{
-	reflect.TypeOf(false), reflect.TypeOf(int(0)), reflect.TypeOf(int8(0)), reflect.TypeOf(int16(0)), reflect.TypeOf(int32(0)), reflect.TypeOf(int64(0)),
-	reflect.TypeOf(uint(0)), reflect.TypeOf(uint8(0)), reflect.TypeOf(uint16(0)), reflect.TypeOf(uint32(0)), reflect.TypeOf(uint64(0)), reflect.TypeOf(uintptr(0)),
-	reflect.TypeOf(float32(0)), reflect.TypeOf(float64(0)), reflect.TypeOf(""),
-	reflect.TypeOf(uni.MyInt8(0)), reflect.TypeOf(uni.MyUint16(0)), reflect.TypeOf(uni.MyInt64(0)), reflect.TypeOf(uni.MyFloat32(0)), reflect.TypeOf(uni.MyString("")), reflect.TypeOf(uni.MyBool(false)),
-	reflect.TypeOf((*int8)(nil)), reflect.TypeOf((*uint32)(nil)), reflect.TypeOf((*int64)(nil)), reflect.TypeOf((*float64)(nil)), reflect.TypeOf((*string)(nil)), reflect.TypeOf((*bool)(nil)),
-	uni.TBigIntP, uni.TBigFloatP, uni.TBigRatP,
-	reflect.TypeOf([]byte(nil)), uni.TTime, reflect.TypeOf((*time.Time)(nil)), uni.TUUID, uni.TIface,
-	reflect.TypeOf([]int(nil)), reflect.TypeOf([]int8(nil)), reflect.TypeOf([]string(nil)), reflect.TypeOf([]interface{}(nil)), reflect.TypeOf([]float64(nil)),
-	reflect.TypeOf([3]int{}), reflect.TypeOf(map[string]int(nil)), reflect.TypeOf(map[string]interface{}(nil)), reflect.TypeOf(map[int]string(nil)),
-	reflect.TypeOf(map[interface{}]interface{}(nil)), reflect.TypeOf(uni.Plain{}), reflect.TypeOf((*uni.Plain)(nil)), uni.TListPtr,
-}
+var dests = Dests
 
 type verdict int
 
